@@ -286,3 +286,41 @@ Proof.
   assert (dotv (subv p q) u * dotv (subv p q) u <= (hi - lo) * (hi - lo)) by nia.
   change (norm2z u) with (norm2 u). nia.
 Qed.
+
+(* ---- towards the cone cover: extreme pairs, and what an edge-flush direction inside their cone gives ---- *)
+
+(* (p, q) is an extreme pair of S in direction m: p maximises and q minimises <., m> over S *)
+Definition extreme_pair (PS : list pt) (p q : pt) (m : Z * Z) : Prop :=
+  In p PS /\ In q PS /\ forall s, In s PS -> phi (fst m) (snd m) q <= phi (fst m) (snd m) s <= phi (fst m) (snd m) p.
+
+(* every direction has an extreme pair of hull vertices *)
+Theorem extreme_pair_exists PS V m : HullSpec PS V -> V <> [] ->
+  exists p q, In p V /\ In q V /\ extreme_pair PS p q m.
+Proof.
+  intros HS NV.
+  destruct (polygon_functional_max PS V (fst m) (snd m) HS NV) as [p [Hp Mp]].
+  destruct (polygon_functional_max PS V (- fst m) (- snd m) HS NV) as [q [Hq Mq]].
+  exists p, q. split; [exact Hp|]. split; [exact Hq|]. split; [apply (hs_subset _ _ HS), Hp|].
+  split; [apply (hs_subset _ _ HS), Hq|]. intros s Hs. split; [|apply Mp, Hs].
+  specialize (Mq s Hs). unfold phi in *. lia.
+Qed.
+
+(* at an edge-flush direction in which (p, q) is an extreme pair, the pair is at least sqrt(bf_min) apart:
+   the local ingredient of the cone cover *)
+Theorem extreme_pair_wide PS V p q m :
+  HullSpec PS V -> (3 <= length V)%nat -> edge_direction V m -> extreme_pair PS p q m ->
+  forall bn bd, bf_min V = Some (bn, bd) ->
+  wide_enough (subv p q) m bn bd = true.
+Proof.
+  intros HS L3 Em (Ip & Iq & Ex) bn bd E.
+  destruct (feret_min_edge_flush PS V HS L3) as [bn' [bd' (E' & Bd & _ & Low)]].
+  rewrite E in E'. injection E' as <- <-.
+  assert (St : Strip PS m (phi (fst m) (snd m) q) (phi (fst m) (snd m) p)).
+  { intros s Hs. destruct (Ex s Hs) as [A B]. unfold phi in *. lia. }
+  pose proof (Low m _ _ Em St) as W.
+  assert (D : dotv (subv p q) m = phi (fst m) (snd m) p - phi (fst m) (snd m) q)
+    by (unfold dotv, subv, phi; cbn [fst snd]; ring).
+  unfold wide_enough. apply andb_true_iff. split.
+  - destruct (Ex p Ip) as [A _]. rewrite D. lia.
+  - unfold norm2z in W. unfold norm2, dotv at 1. rewrite D. lia.
+Qed.
